@@ -17,6 +17,7 @@
 //   converge   (e) NLMS / RLS, white input, noise-free unknown system, horizon from theory, misalignment < 1e-6.
 //   rls_ls     (f) real RLS at generated time points == long-double Cholesky solution of the regularised normal equations.
 #include "kit/num.h"
+#include "kit/prelude.h"
 #include <dsplib.h>
 #include <memory>
 
